@@ -138,6 +138,15 @@ func (s *vP4Server) Write(ctx context.Context, in *p4.WriteRequest, opts ...grpc
 		if len(cs) == 0 {
 			cs = []int32{s.failCode}
 		}
+		if s.failCode == int32(codes.AlreadyExists) {
+			// ALREADY_EXISTS means what it says: identical entries are present
+			// (left by an earlier write); the state after the call contains them
+			for _, u := range in.Updates {
+				if u != nil && u.Entity != nil && s.apply(u) == 0 {
+					s.accepted = append(s.accepted, u)
+				}
+			}
+		}
 		return nil, vMakeP4Err(cs)
 	}
 	if s.logOnly {
